@@ -918,8 +918,72 @@ pub fn c18_alphabet(it: &Interp, spec: Spec, n: u64, thorough: bool) -> Vec<Op> 
     a
 }
 
+/// one alphabet symbol that visits EVERY gap of the table: position a cursor after key k, insert
+/// a fresh key through it (before or after the cursor), close, and look the new key up
+fn cursor_sweep(it: &Interp, spec: Spec, before: bool) -> Option<Op> {
+    let m = it.working_model()?;
+    let t = m.tables.get("t")?;
+    let keys: Vec<Val> = t.t().keys().cloned().collect();
+    let mut ops = vec![];
+    for (i, k) in keys.iter().enumerate() {
+        let next = keys.get(i + 1).cloned();
+        let inside = keys_in_gap(spec.k, &Some(k.clone()), &next, 1);
+        let Some(nk) = inside.first() else { continue };
+        ops.push(Op::CurUpper { slot: 0, b: B::In(k.clone()) });
+        let v = val_of(spec.v, 500 + i as u64, 24);
+        ops.push(if before { Op::CurInsBefore { k: nk.clone(), v } } else { Op::CurInsAfter { k: nk.clone(), v } });
+        ops.push(Op::CurClose);
+        ops.push(Op::Get { slot: 0, k: nk.clone() });
+    }
+    Some(Op::Seq(ops))
+}
+
+pub fn c18_sweep_profile(quick: bool) -> (Profile, u64) {
+    let spec = tbl(T::U64, T::Bytes);
+    let cfg = CFG0;
+    // three-level tree with half-empty leaves (ascending load, then every other key removed):
+    // replacement leaves built by the cursor do not split
+    let mut rm = vec![];
+    for i in 1..=700u64 {
+        if i % 2 == 0 {
+            rm.push(Op::Remove { slot: 0, k: key_of(spec.k, i * 10) });
+        }
+    }
+    let s3 = TSeedSpec { name: "three-level-sparse", n: 700, vlen: 40, extra: rm, dirty: false };
+    let s2 = TSeedSpec { name: "two-level", n: 40, vlen: 40, extra: vec![], dirty: false };
+    let seeds = vec![table_seed(cfg, spec, &s3), table_seed(cfg, spec, &s2)];
+    let depth = if quick { 1 } else { 2 };
+    let alphabet = move |it: &Interp, _d: usize, _b: &Built| -> Vec<Op> {
+        if !it.in_txn() || !it.slot_open(0) || it.has_cursor() {
+            return vec![];
+        }
+        let mut a = vec![];
+        if let Some(o) = cursor_sweep(it, spec, true) {
+            a.push(o);
+        }
+        if let Some(o) = cursor_sweep(it, spec, false) {
+            a.push(o);
+        }
+        a.push(Op::Seq(vec![Op::Commit, Op::Begin, Op::Open { slot: 0, name: "t".into(), spec }]));
+        a
+    };
+    (
+        Profile {
+            name: format!("cursor-sweep-every-gap/d{depth}"),
+            seeds,
+            depth,
+            alphabet: Box::new(alphabet),
+            finish: FINISH_FULL,
+            accounting: true,
+            flags: Flags::default(),
+            extra: None,
+        },
+        u64::MAX,
+    )
+}
+
 pub fn c18_profiles(quick: bool) -> Vec<(Profile, u64)> {
-    let mut out = vec![];
+    let mut out = vec![c18_sweep_profile(quick)];
     let tables: Vec<(Spec, usize)> = if quick {
         vec![(tbl(T::U64, T::Bytes), 3), (tbl(T::Bytes, T::Bytes), 3), (tbl(T::U64, T::U64), 3)]
     } else {
@@ -1593,7 +1657,11 @@ pub fn c13_histories(quick: bool) -> Vec<History> {
 pub fn c08_histories(quick: bool) -> Vec<History> {
     let mut out = vec![];
     let seeds: Vec<(&str, Cfg, bool, bool, bool)> = if quick {
-        vec![("fresh/1region", CFG_ONE_REGION, false, false, false), ("psave+pending/1region+cache", CFG_ONE_REGION_CACHE, false, true, true)]
+        vec![
+            ("fresh/1region", CFG_ONE_REGION, false, false, false),
+            ("psave+pending/1region+cache", CFG_ONE_REGION_CACHE, false, true, true),
+            ("pending/32k+cache8k", CFG_CACHE8K, false, false, true),
+        ]
     } else {
         vec![
             ("fresh/1region", CFG_ONE_REGION, false, false, false),
